@@ -9,6 +9,7 @@ Integrand families: f(p, x, c), integral(p, a, b, c) = int_a^b f dx from the ant
 `c` are plain constants of the family (exponent, rate, ...), `d` / `p` lists of floats.
 """
 import math
+import cmath
 
 
 def _cbrt(v):
@@ -141,6 +142,63 @@ def gradient(family, p, a, b, c, p_is_obs, a_is_obs, b_is_obs):
 
 
 # ------------------------------------------------------------------------------------------
+# weighted integrals  int_a^b f(p, x) cos(w x) dx / sin(w x)  (scipy's weight='cos'|'sin', wvar=w), from the complex
+# antiderivatives of x^k e^{iwx} (recursion by parts) and e^{(iw - r) x}
+def _xk_eiw(k, w, x):
+    """antiderivative of x^k e^{i w x} at x."""
+    iw = 1j * w
+    if k == 0:
+        return cmath.exp(iw * x) / iw
+    return x ** k * cmath.exp(iw * x) / iw - (k / iw) * _xk_eiw(k - 1, w, x)
+
+
+def _part(z, weight):
+    return z.real if weight == 'cos' else z.imag
+
+
+def weight_value(weight, w, x):
+    return math.cos(w * x) if weight == 'cos' else math.sin(w * x)
+
+
+def weighted_dparam(family, p, a, b, c, weight, w):
+    if family == 'poly':
+        return [_part(_xk_eiw(k, w, b) - _xk_eiw(k, w, a), weight) for k in range(len(p))]
+    if family == 'exp':
+        cc = 1j * w - p[1]
+
+        def e0(x):
+            return cmath.exp(cc * x) / cc
+
+        def e1(x):
+            return x * cmath.exp(cc * x) / cc - cmath.exp(cc * x) / cc ** 2
+        g = [_part(e0(b) - e0(a), weight), _part(-p[0] * (e1(b) - e1(a)), weight)]
+        if len(p) > 2:
+            g.append(_part(_xk_eiw(0, w, b) - _xk_eiw(0, w, a), weight))
+        return g
+    raise ValueError(family)
+
+
+def weighted_integral(family, p, a, b, c, weight, w):
+    if family == 'poly':
+        return sum(p[k] * v for k, v in enumerate(weighted_dparam(family, p, a, b, c, weight, w)))
+    if family == 'exp':
+        g = weighted_dparam(family, p, a, b, c, weight, w)
+        return p[0] * g[0] + (p[2] * g[2] if len(p) > 2 else 0.0)
+    raise ValueError(family)
+
+
+def weighted_gradient(family, p, a, b, c, p_is_obs, a_is_obs, b_is_obs, weight, w):
+    """(observable parameters..., lower limit, upper limit): the limit terms carry the weight function."""
+    f = INTEGRANDS[family][0]
+    g = [v for v, is_o in zip(weighted_dparam(family, p, a, b, c, weight, w), p_is_obs) if is_o]
+    if a_is_obs:
+        g.append(-f(p, a, c) * weight_value(weight, w, a))
+    if b_is_obs:
+        g.append(f(p, b, c) * weight_value(weight, w, b))
+    return g
+
+
+# ------------------------------------------------------------------------------------------
 def self_check():
     """The typed formulas against mpmath (numerical root finding / quadrature / differentiation)."""
     import mpmath
@@ -181,6 +239,26 @@ def self_check():
             fd = (integral(pp, a, b, c) - integral(pm, a, b, c)) / (2 * h)
             if abs(fd - g[k]) > 1e-7 * (1 + abs(g[k])):
                 raise AssertionError('parameter derivative %d of %s is wrong' % (k, name))
+    # weighted integrals against high-accuracy numerical quadrature
+    for name, p in (('poly', [0.7, -1.3, 0.4, 0.9]), ('exp', [1.2, 0.8, -0.3]), ('exp', [-0.9, 1.4])):
+        f = INTEGRANDS[name][0]
+        for weight in ('cos', 'sin'):
+            a, b, w = -0.4, 2.1, 1.7
+            num = float(mpmath.quad(lambda x: f(p, float(x), {}) * weight_value(weight, w, float(x)), [a, b]))
+            if abs(num - weighted_integral(name, p, a, b, {}, weight, w)) > 1e-10:
+                raise AssertionError('weighted antiderivative of %s (%s) is wrong' % (name, weight))
+            g = weighted_dparam(name, p, a, b, {}, weight, w)
+            for k in range(len(p)):
+                h = 1e-5
+                pp, pm = list(p), list(p)
+                pp[k] += h
+                pm[k] -= h
+                fd = (weighted_integral(name, pp, a, b, {}, weight, w) - weighted_integral(name, pm, a, b, {}, weight, w)) / (2 * h)
+                if abs(fd - g[k]) > 1e-7 * (1 + abs(g[k])):
+                    raise AssertionError('weighted parameter derivative %d of %s (%s) is wrong' % (k, name, weight))
+                numd = float(mpmath.quad(lambda x: (f(pp, float(x), {}) - f(pm, float(x), {})) / (2 * h) * weight_value(weight, w, float(x)), [a, b]))
+                if abs(numd - g[k]) > 1e-6 * (1 + abs(g[k])):
+                    raise AssertionError('weighted parameter derivative %d of %s (%s) disagrees with quadrature' % (k, name, weight))
     # exponential on a half line
     f, integral, dp = INTEGRANDS['exp']
     num = float(mpmath.quad(lambda x: f([1.2, 0.8], float(x), {}), [0.2, mpmath.inf]))
